@@ -91,6 +91,16 @@ class Ctx:
         self._scaled = d
         return d
 
+    def lits(self):
+        """integer constants mined from the sources under test (see lib/mine.py)"""
+        if not hasattr(self, '_lits'):
+            from lib import mine
+            self._lits = mine.mine(SRC)
+        return self._lits
+
+    def lits_arg(self):
+        return ','.join(str(x) for x in self.lits()) or '0'
+
     # ------------------------------------------------------------ building
     def flags_native(self, avx512=False, omp=True, extra=()):
         f = ['-std=c++17', '-O2', '-mavx2', '-fno-access-control', '-w', '-I' + COMMON, '-I' + SRC]
@@ -130,6 +140,14 @@ class Ctx:
         with ThreadPoolExecutor(max_workers=min(NCPU, max(1, len(jobs)))) as ex:
             for name, exe, r, cmd in ex.map(one, jobs):
                 if r.returncode != 0:
+                    scaled = any(f.startswith('-DVW=') for f in cmd) or any(os.path.basename(x).startswith(('k_', 'm_', 'c0')) and x.endswith('.o') and not os.path.exists(x) for x in cmd)
+                    if scaled:
+                        # the width-scaled model cannot express something in the current source (an intrinsic or asm
+                        # form the model does not know): the scaled tier becomes unavailable, never an alarm
+                        first = [l for l in r.stderr.split('\n') if 'error' in l][:1]
+                        self.uncovered.append('scaled build %s failed, tier skipped: %s' % (name, (first[0] if first else r.stderr[-200:]).strip()[:300]))
+                        self.exhaustive = False
+                        continue
                     sys.stderr.write('BUILD FAILED %s\n%s\n%s\n' % (name, ' '.join(cmd), r.stderr[-3000:]))
                     raise FrameworkError('build failed: ' + name)
                 out[name] = exe
@@ -182,8 +200,11 @@ class Ctx:
             return {'_rc': 0, '_stderr': r.stderr, '_stdout': r.stdout, '_wall': dt}
         for line in r.stdout.split('\n'):
             if line.startswith('STAT '):
-                _, k, v = line.split(' ', 2)
-                v = int(v)
+                try:
+                    k, v = line[5:].rsplit(' ', 1)
+                    v = int(v)
+                except ValueError:
+                    continue
                 local[k] = local.get(k, 0) + v
                 self.stats[k] = self.stats.get(k, 0) + v
             elif line.startswith('SAMPLE '):
@@ -271,6 +292,8 @@ def finish(ctx, level_note_assumptions=None):
             def norm(x):
                 # memory corruption may end a process with different signals from run to run: any crash of the
                 # same case in the same call counts as the same failure when replaying
+                if re.match(r'C18\.(asan|ubsan)\.', x):
+                    return 'C18.SANITIZER-REPORT'  # memory corruption shows up as different reports from run to run
                 return re.sub(r'\.(segv|abort(@[^.]*(\.(cpp|hpp):\d+)?)?|sigbus|sigfpe|timeout|signal\d+|exit\d+)\.', '.CRASH.', x)
             rs = ctx.replay_case(v['step'], v['case'], v.get('args', ()))
             if sig not in rs and norm(sig) not in [norm(x) for x in rs]:
